@@ -110,6 +110,17 @@ func buildC14(tier string, seed int64) *Family {
 			}
 		}
 	}
+	// descendant steps feeding descendant steps from a context that has following siblings (5 slots)
+	for _, x := range []string{"descendant::p:a/descendant-or-self::*", "descendant::a/descendant::p:a", "descendant-or-self::p:a/descendant::*"} {
+		for _, nv := range navs {
+			cur = docCfg{N: 5, A: 0, Names: cfg.Names, Pool: cfg.Pool}
+			in := mk("H_nodeset", x, "none", nv)
+			in.Params["prefixes"] = ",p"
+			in.Params["uris"] = ",u1"
+			insts = append(insts, in)
+			cur = cfg
+		}
+	}
 	// name functions
 	fns := []string{"name()", "local-name()", "namespace-uri()", "name(*)", "local-name(*)", "namespace-uri(*)", "name(@*)", "local-name(@*)", "namespace-uri(@*)",
 		"name(//a)", "local-name(//b)", "namespace-uri(//a)", "name(a)", "name(..)", "local-name(.)", "namespace-uri(@a)", "name(p:a)", "local-name(//p:a)",
